@@ -13,7 +13,7 @@ import random
 
 import torch
 
-from simkit.core import HarnessError, RunResult, Tape, make_tape
+from simkit.core import HarnessError, RunResult, Tape, make_tape, short_hash
 from simkit.simpool import PoolSim
 from . import cmdsim
 from .cmdsim import Scratch, run_command, snapshot, diff_snapshots, SimConfig
@@ -54,11 +54,29 @@ def execute(sc):
     pl = PIPELINES[sc["pipeline"]]
     base = None
     counters = {}
+    tag = short_hash(sc)
+    # warm-up round: the same pipeline, serially, on the same paths, with one utterance fewer.
+    # Anything a command remembers between invocations in one process is then stale.
+    if pl.size(sc) >= 1 and sc.get("warmup", True):
+        warm = copy.deepcopy(sc)
+        warm["utts"] = warm["utts"][:-1]
+        sim = PoolSim(Tape([]), 4)
+        with Scratch(tag) as s:
+            with sim.patched(), cmdsim.permuted_listings(s.path, sc["listing_seed"] * 31 + 17, counters):
+                random.seed(12345)
+                torch.manual_seed(12345)
+                try:
+                    pl.run(warm, s, SimConfig(0, 1, [], 4), RunResult())
+                except HarnessError:
+                    raise
+                except Exception:  # noqa: the warm-up is not judged
+                    pass
+        res.bump("fault.stale_state_round")
     for i, (w, c, tape, depth) in enumerate(sc["configs"]):
         cfg = SimConfig(w, c, tape, depth)
         n = pl.size(sc)
         sim = PoolSim(Tape(tape), depth, event_budget=400 + 60 * n * (len(pl.commands_hint) if hasattr(pl, "commands_hint") else 3))
-        with Scratch() as s:
+        with Scratch(tag) as s:
             with sim.patched(), cmdsim.permuted_listings(s.path, sc["listing_seed"] * 31 + i, counters):
                 random.seed(12345)
                 torch.manual_seed(12345)
